@@ -726,7 +726,9 @@ func c10Select(c *Ctx, p *Prog) {
 		var nz, first, less *bool
 		var cand *Sym
 		unknown := ""
-		for k, v := range o.Assign {
+		for _, k := range o.AtomKeys() {
+			v := o.Assign[k]
+			_ = v
 			s := o.AtomSyms[k]
 			vv := v
 			switch {
@@ -877,7 +879,9 @@ func c10Class(c *Ctx, p *Prog) {
 	for _, o := range outs {
 		matched := map[string]bool{}
 		var denom *bool
-		for k, v := range o.Assign {
+		for _, k := range o.AtomKeys() {
+			v := o.Assign[k]
+			_ = v
 			s := o.AtomSyms[k]
 			vv := v
 			switch {
